@@ -147,6 +147,44 @@ fn has_sub_word_of_narrower_sub_word(code: &[u8], cfg: &VmCfg) -> bool {
     found
 }
 
+/// The same family seen at the level of resolved types: a span of a packed encoding whose own type is a
+/// packed encoding with an element that does not fit into that span (the outer sub-word is narrower than
+/// what its content claims; it arises without a syntactic sub-word of a sub-word when the value travels
+/// through storage, e.g. slot0 := sload(K) & bit129 with K typed by a cycle). Flattening adds the
+/// offsets without regard to the holding span.
+fn has_packed_nested_beyond_its_span(code: &[u8], cfg: &VmCfg) -> bool {
+    use storage_layout_extractor::{disassembly::InstructionStream, tc::{expression::TE, TypeChecker}, vm::VM};
+    let r = guard(|| {
+        let wd = CountingWatchdog::budget(3_000_000);
+        let stream = InstructionStream::try_from(code).ok()?;
+        let mut vm = VM::new(stream, cfg.to_config(), subj::dyn_wd(&wd)).ok()?;
+        let _ = vm.execute();
+        let result = vm.consume();
+        let mut tc = TypeChecker::new(subj::tc_config(true), subj::dyn_wd(&wd));
+        let lifted = tc.lift(result).ok()?;
+        tc.assign_vars(lifted).ok()?;
+        tc.infer().ok()?;
+        let _ = tc.unify();
+        let vars = tc.state().variables();
+        for v in vars {
+            let Ok(TE::Packed { types, .. }) = tc.type_of(v) else { continue };
+            for span in types {
+                if let Ok(TE::Packed { types: inner, .. }) = tc.type_of(span.typ()) {
+                    if inner.iter().any(|i| i.offset_bits() + i.size_bits() > span.size_bits()) {
+                        return Some(true);
+                    }
+                }
+            }
+        }
+        Some(false)
+    });
+    matches!(r, Ok(Some(true)))
+}
+
+fn nested_family(code: &[u8], cfg: &VmCfg) -> bool {
+    has_sub_word_of_narrower_sub_word(code, cfg) || has_packed_nested_beyond_its_span(code, cfg)
+}
+
 pub fn check_code(code: &[u8], permissive: bool, hostile_positions: bool, acc: &mut Acc) -> CaseResult {
     let case = json!({ "bytes": hex::encode(code), "permissive": permissive });
     let cfg = VmCfg {
@@ -192,7 +230,7 @@ pub fn check_code(code: &[u8], permissive: bool, hostile_positions: bool, acc: &
     for s in slots {
         acc.label_if(s.offset >= 128, "entry-at-offset>=128");
         if s.offset >= 256 {
-            let nested = has_sub_word_of_narrower_sub_word(code, &cfg);
+            let nested = nested_family(code, &cfg);
             return CaseResult::Fail(Violation::new(
                 if nested {
                     "a layout entry lies outside its 256-bit slot (a sub-word taken from a narrower sub-word)"
@@ -206,7 +244,7 @@ pub fn check_code(code: &[u8], permissive: bool, hostile_positions: bool, acc: &
         if let Some(w) = width_of(&s.typ) {
             acc.label_if(s.offset + w == 256 && s.offset > 0, "entry-ending-at-256");
             if s.offset.saturating_add(w) > 256 {
-                let nested = has_sub_word_of_narrower_sub_word(code, &cfg);
+                let nested = nested_family(code, &cfg);
                 return CaseResult::Fail(Violation::new(
                     if nested {
                         "a layout entry lies outside its 256-bit slot (a sub-word taken from a narrower sub-word)"
